@@ -202,21 +202,23 @@ def getPeriodOffsets (pbd days : List Int) (inr : Option (List Int)) : Except Er
 
 /-! ### the documented pipeline -/
 
+/-- for ascending period boundaries `ps`: `days, in_range = get_days(ts, filter, ps[0], ps[-1])`;
+    `get_period_offsets(generate_period_offset_map(ps), days, in_range)`, all on one time axis -/
+def bucket (ts : List Int) (filt : Option (List Int)) (ps : List Int) : Except Err (List Int) :=
+  match offsetMap ps with
+  | .error e => .error e
+  | .ok m =>
+    match getDays ts filt ps.head? ps.getLast? with
+    | .error e => .error e
+    | .ok out =>
+      getPeriodOffsets m out.days (out.inRange.map (fun fl => fl.map (fun b => if b then 1 else 0)))
+
 /-- `periods = get_periods(start, end, period, delta)` (reversed into ascending order when generated backwards, as
-    tests/test_date_time_helpers.py does); `days, in_range = get_days(ts, filter, periods[0], periods[-1])`;
-    `get_period_offsets(generate_period_offset_map(periods), days, in_range)`, all on one time axis -/
+    tests/test_date_time_helpers.py does), then `bucket` -/
 def pipeline (ts : List Int) (filt : Option (List Int)) (start end_ : Int) (period : String) (delta : Int) :
     Except Err (List Int) :=
   match getPeriods start end_ period delta with
   | .error e => .error e
-  | .ok ps0 =>
-    let ps := if delta < 0 then ps0.reverse else ps0
-    match offsetMap ps with
-    | .error e => .error e
-    | .ok m =>
-      match getDays ts filt ps.head? ps.getLast? with
-      | .error e => .error e
-      | .ok out =>
-        getPeriodOffsets m out.days (out.inRange.map (fun fl => fl.map (fun b => if b then 1 else 0)))
+  | .ok ps0 => bucket ts filt (if delta < 0 then ps0.reverse else ps0)
 
 end Exetera.Dates
